@@ -304,6 +304,7 @@ def search(r, m):
                     kind="converse-divergence", theorem="C01 (last sentence: rewrites may only change speed)")
     r.coverage["search"] = dict(s, distinct_violations=len(seen), converse_keys=sorted(by_rule))
     r.coverage["marked_tied_family"] = {"programs": s.get("marked_tied_programs"), "note": "every rule whose fused form has or could get a sortedness shortcut x {literal, sort, reverse sort, select by rise/fall, reverse, negate sort} x arrays with repeated max/min of rank 1 and 2; also inside rows and behind a function / constant binding"}
+    r.coverage["rowless_family"] = {"programs": s.get("rowless_programs"), "note": "every rule's trigger sequence, bare / under rows / behind a function, on arrays without rows (and with element-less rows) of every element type"}
     r.coverage["regression_corpus"] = {"programs": s.get("regression_programs"), "note": "bare reproducers of every defect found so far, replayed first; repaired ones are no longer known findings, so a regression prints a VIOLATION"}
     r.log("search: %d programs (%d succeed without rewrites), %d violations, %d converse divergences; corpus %d/%d"
           % (s["programs"], s["reference_ok"], len(seen), len(conv), s["corpus_reference_ok"], s["corpus_items"]))
